@@ -76,6 +76,8 @@ PROPS["C09"] = {
     "units": [
         {"name": "C09", "pkg": "server/commitlog", "test": "TestVerifC09",
          "quick": {"shards": 16, "checks": 1500}, "thorough": {"shards": 16, "checks": 15000, "timeout": 3000}},
+        {"name": "C09b", "pkg": "server/commitlog", "test": "TestVerifC09b", "common": {"race": True},
+         "quick": {"shards": 8, "checks": 60}, "thorough": {"shards": 16, "checks": 1500, "timeout": 3000}},
     ],
 }
 PROPS["C08"] = {
@@ -93,6 +95,8 @@ PROPS["C08"] = {
     "units": [
         {"name": "C08", "pkg": "server/commitlog", "test": "TestVerifC08",
          "quick": {"shards": 16, "checks": 1000}, "thorough": {"shards": 16, "checks": 10000, "timeout": 3000}},
+        {"name": "C08b", "pkg": "server/commitlog", "test": "TestVerifC08b", "common": {"race": True},
+         "quick": {"shards": 8, "checks": 60}, "thorough": {"shards": 16, "checks": 1500, "timeout": 3000}},
     ],
 }
 
